@@ -484,3 +484,119 @@ Proof.
   - eexists. eexists. split; [vm_compute; reflexivity|]. split; [vm_compute; reflexivity|].
     split; [vm_compute; reflexivity|]. vm_compute. intros X. apply X. reflexivity.
 Qed.
+
+(** * The decision depends on the declared dependencies only
+
+    [process] validates an operation against [state_at] of its *declared* dependencies - the merge
+    of the states stored for exactly those operations.  Whatever else the replica has accepted
+    (concurrent branches, other heads) has no influence on the decision. *)
+
+Lemma state_at_fold_ext y1 y2 deps : forall acc,
+  (forall d, In d deps -> alookup d (states y1) = alookup d (states y2)) ->
+  fold_left (fun a d => match a, alookup d (states y1) with
+                        | Some cur, Some gs => Some (merge_group_states cur gs)
+                        | _, _ => None
+                        end) deps acc
+  = fold_left (fun a d => match a, alookup d (states y2) with
+                          | Some cur, Some gs => Some (merge_group_states cur gs)
+                          | _, _ => None
+                          end) deps acc.
+Proof.
+  induction deps as [|d r IH]; intros acc H; cbn [fold_left]; [reflexivity|].
+  rewrite (H d (or_introl eq_refl)). apply IH. intros d' Hd. apply H. right. exact Hd.
+Qed.
+
+Lemma state_at_ext y1 y2 deps :
+  (forall d, In d deps -> alookup d (states y1) = alookup d (states y2)) ->
+  state_at y1 deps = state_at y2 deps.
+Proof. intros H. unfold state_at. apply state_at_fold_ext. exact H. Qed.
+
+Theorem decision_depends_only_on_dependencies y1 y2 o :
+  (forall d, In d (op_deps o) -> alookup d (states y1) = alookup d (states y2)) ->
+  memN (op_id o) (map op_id (ops y1)) = memN (op_id o) (map op_id (ops y2)) ->
+  snd (process y1 o) = snd (process y2 o).
+Proof.
+  intros Hs Hd. unfold process. rewrite Hd, (state_at_ext _ _ _ Hs).
+  destruct (memN (op_id o) (map op_id (ops y2))); [reflexivity|].
+  destruct (state_at y2 (op_deps o)) as [gs|]; [|reflexivity].
+  destruct (apply_action gs (op_group o) (op_author o) (op_action o)); reflexivity.
+Qed.
+
+Lemma memN_In x l : memN x l = true -> In x l.
+Proof.
+  unfold memN. intros H. apply existsb_exists in H. destruct H as [y [Hin He]].
+  apply N.eqb_eq in He. subst y. exact Hin.
+Qed.
+
+(** an accepted operation that is not among the declared dependencies leaves the state at those
+    dependencies as it was *)
+Lemma accept_state_at_stable y o' y' deps :
+  process y o' = (y', OOk) -> ~ In (op_id o') deps -> state_at y' deps = state_at y deps.
+Proof.
+  intros Hp Hn. apply accept_extends in Hp. destruct Hp as [_ [gs' Hst]].
+  apply state_at_ext. intros d Hd. rewrite Hst. cbn [alookup].
+  destruct (N.eqb_spec d (op_id o')) as [->|_]; [contradiction|reflexivity].
+Qed.
+
+Theorem concurrent_operation_irrelevant y o' y' out o :
+  process y o' = (y', out) -> ~ In (op_id o') (op_deps o) -> op_id o <> op_id o' ->
+  snd (process y' o) = snd (process y o).
+Proof.
+  intros Hp Hn Hid.
+  destruct (process_ops _ _ _ _ Hp) as [[-> Hops]|[_ ->]]; [|reflexivity].
+  apply decision_depends_only_on_dependencies.
+  - intros d Hd. apply accept_extends in Hp. destruct Hp as [_ [gs' Hst]]. rewrite Hst. cbn [alookup].
+    destruct (N.eqb_spec d (op_id o')) as [->|_]; [contradiction|reflexivity].
+  - rewrite Hops. cbn [map]. unfold memN. cbn [existsb].
+    destruct (N.eqb_spec (op_id o) (op_id o')) as [E|_]; [contradiction|reflexivity].
+Qed.
+
+(** any sequence of operations processed in between - none of them a declared dependency of [o],
+    none of them [o] itself - does not change the decision on [o], nor the state it is judged in *)
+Theorem concurrent_run_irrelevant l : forall y o,
+  (forall o', In o' l -> ~ In (op_id o') (op_deps o) /\ op_id o <> op_id o') ->
+  snd (process (fst (run y l)) o) = snd (process y o)
+  /\ state_at (fst (run y l)) (op_deps o) = state_at y (op_deps o).
+Proof.
+  induction l as [|o1 r IH]; intros y o H; cbn [run]; [split; reflexivity|].
+  destruct (process y o1) as [y1 out] eqn:Ep.
+  assert (Hr : forall o', In o' r -> ~ In (op_id o') (op_deps o) /\ op_id o <> op_id o')
+    by (intros o' Hin; apply H; right; exact Hin).
+  specialize (IH y1 o Hr). destruct (run y1 r) as [y2 outs]. cbn [fst] in *.
+  destruct (H o1 (or_introl eq_refl)) as [Hn Hid]. destruct IH as [IH1 IH2]. split.
+  - rewrite IH1. eapply concurrent_operation_irrelevant; eassumption.
+  - rewrite IH2. destruct (process_ops _ _ _ _ Ep) as [[-> _]|[_ ->]]; [|reflexivity].
+    eapply accept_state_at_stable; eassumption.
+Qed.
+
+(** Example (the hypotheses are satisfiable, and the statement bites): manager 0 creates the
+    group, then concurrently adds 1 as manager (operation 1) and 2 as reader (operation 2).  Both
+    are heads.  Member 1 adding 3 is accepted when it declares operation 1 - or both heads - as
+    dependencies, and rejected as an unrecognised actor when it declares operation 2 only: in the
+    state at that dependency 1 is not a member, although it is a manager in the replica's
+    current (merged) state.  The concurrent operation 1 is irrelevant for the decision. *)
+Definition exb_create : Op := mkOp 0 0 [] 0 (Create [(0%N, Manage)]).
+Definition exb_add1 : Op := mkOp 1 0 [0%N] 0 (Add 1 Manage).
+Definition exb_add2 : Op := mkOp 2 0 [0%N] 0 (Add 2 Read).
+Definition exb_probe (deps : list N) : Op := mkOp 3 1 deps 0 (Add 3 Read).
+Definition exb_y : Replica := fst (run init [exb_create; exb_add1; exb_add2]).
+
+Example exb_heads : heads exb_y = [2%N; 1%N].
+Proof. vm_compute. reflexivity. Qed.
+
+Example exb_current_manager :
+  exists gs my, state_at exb_y (heads exb_y) = Some gs /\ glookup 0 gs = Some my
+                /\ is_active_manager my 1 = true.
+Proof. eexists. eexists. split; [vm_compute; reflexivity|]. split; vm_compute; reflexivity. Qed.
+
+Example exb_outcomes :
+  snd (process exb_y (exb_probe [2%N])) = OErr UnrecognisedActor
+  /\ snd (process exb_y (exb_probe [1%N])) = OOk
+  /\ snd (process exb_y (exb_probe [1%N; 2%N])) = OOk
+  /\ snd (process exb_y (exb_probe [0%N])) = OErr UnrecognisedActor.
+Proof. vm_compute. repeat split; reflexivity. Qed.
+
+Example exb_irrelevant :
+  snd (process exb_y (exb_probe [2%N]))
+  = snd (process (fst (run init [exb_create; exb_add2])) (exb_probe [2%N])).
+Proof. vm_compute. reflexivity. Qed.
